@@ -126,7 +126,7 @@ def rule_acceptance(ctx, rid):
     segs = _segments(A)
     n = 0
     bad = None
-    for b, ls, bt, stores in segs:
+    for b, ls, bt, stores, skip in segs:
         for idx, val, bb in stores:
             n += 1
             sl = idx[1][0] if idx[0] == 'tuple' else idx
@@ -178,7 +178,7 @@ def rule_acceptance(ctx, rid):
     A2 = cyclevec.get(ctx, True, False)
     bad = None
     n = 0
-    for b, ls, bt, stores in _segments(A2):
+    for b, ls, bt, stores, skip in _segments(A2):
         for idx, val, bb in stores:
             n += 1
             ok = any(truth and c[0] == 'call' and c[1] in ('builtins.all', 'numpy.all') and c[2][0][0] == 'call'
@@ -198,7 +198,7 @@ def rule_acceptance(ctx, rid):
     A3 = cyclevec.get(ctx, False, False)
     n = 0
     bad = None
-    for b, ls, bt, stores in _segments(A3):
+    for b, ls, bt, stores, skip in _segments(A3):
         for idx, val, bb in stores:
             n += 1
             for c, truth, lnn in bb.conds:
